@@ -51,7 +51,8 @@ var impWants = []impWant{
 		funcs: []string{"eventLess", "keys", "cp", "NewIndex", "Index.At"}},
 	{dir: "align", pkg: "align",
 		funcs: []string{"SubstitutionMatrix.Get", "decideOnStep", "traceAlignmentSteps", "Global",
-			"argmax", "traceAlignmentStepsLocal", "Local"}},
+			"argmax", "traceAlignmentStepsLocal", "Local",
+			"init@pam120.go#0", "init@pam160.go#0", "init@pam250.go#0", "init@blosum45.go#0", "init@blosum62.go#0", "init@blosum80.go#0"}},
 	{dir: "align", pkg: "alignf", funcs: []string{"SubstitutionMatrix.Symmetrical"}, floatAs: "F"},
 	{dir: "formats/fasta", pkg: "fasta", funcs: []string{"Fasta.Write", "Fasta.MarshalText"}, join: true},
 	{dir: "formats/fasta", pkg: "fastard", funcs: []string{"reader.read", "reader.iter", "Reader"}, errZ: true},
@@ -632,6 +633,18 @@ func (t *impTr) ex(e ast.Expr, pre *[]opener) string {
 		case *types.Map, *types.Slice:
 			if len(e.Elts) == 0 {
 				return "[]"
+			}
+			if _, isMap := u.(*types.Map); isMap {
+				// a map literal: its entries in source order, as an association list
+				parts := make([]string, len(e.Elts))
+				for i, el := range e.Elts {
+					kv, ok := el.(*ast.KeyValueExpr)
+					if !ok {
+						t.fail(el, "map literal element without a key")
+					}
+					parts[i] = "(" + t.ex(kv.Key, pre) + ", " + t.ex(kv.Value, pre) + ")"
+				}
+				return "[" + strings.Join(parts, "; ") + "]"
 			}
 			if _, ok := u.(*types.Slice); ok {
 				parts := make([]string, len(e.Elts))
